@@ -1,4 +1,5 @@
 import Evl.Model.Locks
+import Evl.Props.NodeClose
 import Evl.Generated.LockSites
 /-!
 # C12 — Broker calls terminate even when nodes call back into the Broker
